@@ -16,10 +16,27 @@ Inductive xexp :=
 | XMax (a b:xexp) | XMin (a b:xexp)
 | XIf (op:cop) (a b t e:xexp).      (* t if a op b else e, op one of > >= < <= *)
 
+Fixpoint xchain (acc:xexp) (l:list xexp) : xexp := match l with [] => acc | a :: t => xchain (XAdd acc a) t end.
+
 Definition is_ord (op:cop) : bool := match op with CGt | CGe | CLt | CLe => true | _ => false end.
 Definition lit_name (parts:list npart) : option string :=
   match parts with [NLit s] => Some s | [NExp (EConst (PStr s))] => Some s | _ => None end.
 Definition num_lit (e:expr) : option Q := match e with EConst (PNum q) => Some q | _ => None end.
+
+
+(* sums: sum([a, b, ...]) and sum([v[f'<pre>{x}<post>'] for x in <constant list>]) become a chain of additions *)
+Definition item_str (v:pv) : option string := match v with PStr s => Some s | PInt z => Some (str_of_Z z) | _ => None end.
+Fixpoint name_with (x s:string) (parts:list npart) : option string :=
+  match parts with
+  | [] => Some ""
+  | NLit p :: t => option_map (append p) (name_with x s t)
+  | NExp (EVar y) :: t => if String.eqb x y then option_map (append s) (name_with x s t) else None
+  | _ => None
+  end.
+Fixpoint omap {A B} (f:A -> option B) (l:list A) : option (list B) :=
+  match l with [] => Some [] | a :: t => match f a, omap f t with Some b, Some r => Some (b :: r) | _, _ => None end end.
+Definition comp_names (x:string) (parts:list npart) (items:list pv) : option (list xexp) :=
+  omap (fun it => match item_str it with Some s => option_map XLine (name_with x s parts) | None => None end) items.
 
 Fixpoint xcomp (fuel:nat) (e:expr) : option xexp :=
   match fuel with
@@ -43,6 +60,10 @@ Fixpoint xcomp (fuel:nat) (e:expr) : option xexp :=
     | ECall FMax [a; b] => match xcomp n a, xcomp n b with Some x, Some y => Some (XMax x y) | _, _ => None end
     | ECall FMin [a; b] => match xcomp n a, xcomp n b with Some x, Some y => Some (XMin x y) | _, _ => None end
     | ECall FFloat [a] => xcomp n a
+    | ECall FSum [EList (e0 :: es)] =>
+        match omap (xcomp n) (e0 :: es) with Some (a :: r) => Some (xchain a r) | _ => None end
+    | ECall FSum [EComp (ERead RV parts) x (EConst (PList (it0 :: its))) None] =>
+        match comp_names x parts (it0 :: its) with Some (a :: r) => Some (xchain a r) | _ => None end
     | EIf (ECmp op a b) t e =>
         if is_ord op then
           match xcomp n a, xcomp n b, xcomp n t, xcomp n e with
